@@ -70,8 +70,13 @@ def run_blend(N, nst, default_case):
         alpha = facade.wrap(np.array([sym("al_%s_%d" % (sname, i)) for i in range(n)], dtype=object))
         Re = facade.wrap(np.array([sym("Re_%s_%d" % (sname, i)) for i in range(n)], dtype=object))
         Ma = facade.wrap(np.array([sym("Ma_%s_%d" % (sname, i)) for i in range(n)], dtype=object))
-        seg._delta_flap = facade.wrap(np.array([sym("df_%s_%d" % (sname, i)) for i in range(n)], dtype=object))
         seg._cp_c_f = facade.wrap(np.array([sym("cf_%s_%d" % (sname, i)) for i in range(n)], dtype=object))
+        # history: every getter has been evaluated before at another flap deflection, then the deflection array was *rebound* to a
+        # new array, as WingSegment.apply_control does on every control change; the coefficients must follow the current array
+        seg._delta_flap = facade.wrap(np.array([sym("olddf_%s_%d" % (sname, i)) for i in range(n)], dtype=object))
+        for meth, coef, takes_alpha in COEFS:
+            getattr(seg, meth)(alpha, Re, Ma) if takes_alpha else getattr(seg, meth)(Re, Ma)
+        seg._delta_flap = facade.wrap(np.array([sym("df_%s_%d" % (sname, i)) for i in range(n)], dtype=object))
         res = {}
         for meth, coef, takes_alpha in COEFS:
             got = getattr(seg, meth)(alpha, Re, Ma) if takes_alpha else getattr(seg, meth)(Re, Ma)
@@ -165,6 +170,12 @@ def replay_blend(inp):
             sc = MX.Scene({"units": "English", "scene": {"atmosphere": {"rho": 0.0023769}}})
             sc.add_aircraft("p", d, state={"velocity": [100.0, 0.0, 5.0]}, control_state={"flap": 3.0})
             ap = sc._airplanes["p"]
+            for sname, seg in ap.wing_segments.items():       # history: everything evaluated once at the first control setting
+                n = seg.N
+                alpha = np.linspace(0.02, 0.08, n); Re = np.linspace(1e6, 2e6, n); Ma = np.linspace(0.1, 0.2, n)
+                for meth, coef, takes_alpha in COEFS:
+                    getattr(seg, meth)(alpha, Re, Ma) if takes_alpha else getattr(seg, meth)(Re, Ma)
+            sc.set_aircraft_control_state(control_state={"flap": -5.0})
             for sname, seg in ap.wing_segments.items():
                 n = seg.N
                 alpha = np.linspace(0.02, 0.08, n); Re = np.linspace(1e6, 2e6, n); Ma = np.linspace(0.1, 0.2, n)
